@@ -53,3 +53,9 @@ func (n *LocalNode) VerifSetFinger(k int, f chord.VNode) {
 
 // single attempt of the leave protocol (no retry loop, no advisories)
 func (n *LocalNode) VerifExecuteLeave() (pre, succ chord.VNode, err error) { return n.executeLeave() }
+
+// stop the background tasks of a node the harness is done with (idempotent)
+func (n *LocalNode) VerifStop() {
+	defer func() { recover() }()
+	close(n.stopCh)
+}
